@@ -496,6 +496,8 @@ def r10_forwarding_slices(ctx):
 
 
 def run(ctx):
+    from . import effects
+    effects.check_property(ctx, "C01")    # R01.E: no operation on shared protocol state outside the reviewed table
     from . import C04, C11
     r12_every_dequeued_chunk_is_written(ctx)
     r13_no_cancel_and_retry_of_framed_reads(ctx)
